@@ -527,6 +527,84 @@ Theorem C02x_oracle_hypotheses_satisfiable :
 Proof. exact XuHashSound.oracle_hypotheses_satisfiable. Qed.
 Print Assumptions C02x_oracle_hypotheses_satisfiable.
 
+
+(* ---- C02_empty_sound WITHOUT the key guard (Diff/DiffStrip.v) ----
+   dict keys hidden by ignore_private_variables are not part of what is compared: [strip c v] removes them at every depth
+   (the identity when every key is looked at, e.g. ignore_private_variables=False); the diff of two values is empty iff
+   the diff of the stripped values is, for ALL values, both list modes and every oracle; so an empty diff means that the
+   STRIPPED values are == - for all well-formed inputs, only the set-member guard is left *)
+From DD Require Diff.DiffStrip.
+
+Theorem C02_diff_empty_iff_stripped_diff_empty :
+  forall hatom udiff ops excl c t1 t2,
+    fst (run_diff hatom udiff ops (fun _ => false) excl c t1 t2) = [] <->
+    fst (run_diff hatom udiff ops (fun _ => false) excl c (DiffStrip.strip c t1) (DiffStrip.strip c t2)) = [].
+Proof. exact DiffStrip.run_nil_strip. Qed.
+Print Assumptions C02_diff_empty_iff_stripped_diff_empty.
+
+Theorem C02_empty_sound_all_keys :
+  forall hatom udiff ops excl c ok t1 t2,
+    (forall a b, ok a = true -> ok b = true -> hatom a = hatom b -> py_eq a b = true) -> valid_ops ops ->
+    wf t1 = true -> wf t2 = true ->
+    inputs_ok any_atom ok t1 = true -> inputs_ok any_atom ok t2 = true ->
+    fst (run_diff hatom udiff ops (fun _ => false) excl c t1 t2) = [] ->
+    py_eqv (DiffStrip.strip c t1) (DiffStrip.strip c t2) = true.
+Proof. intros. eapply DiffStrip.run_empty_sound_all_keys; eassumption. Qed.
+Print Assumptions C02_empty_sound_all_keys.
+
+Theorem C02_strip_is_identity_on_looked_at_keys :
+  forall c v, inputs_ok (keep_key c) any_atom v = true -> DiffStrip.strip c v = v.
+Proof. exact DiffStrip.strip_id. Qed.
+Print Assumptions C02_strip_is_identity_on_looked_at_keys.
+
+(* the threshold guard of the copy clause is necessary: threshold_to_diff_deeper = 3/2 (outside the documented range,
+   accepted by DeepDiff unchecked; replayed on the implementation by c02.py) reports {'a':1,'b':2} as changed against itself *)
+Theorem C02_copy_empty_refuted_threshold :
+  wf DiffStrip.thr_d = true /\
+  length (fst (run_diff inj_hash (fun _ _ => []) one_block (fun _ => false) (fun _ => false) (mkCfg false 3 2 true) DiffStrip.thr_d DiffStrip.thr_d)) = 1 /\
+  fst (run_diff inj_hash (fun _ _ => []) one_block (fun _ => false) (fun _ => false) (mkCfg false 1 1 true) DiffStrip.thr_d DiffStrip.thr_d) = [].
+Proof. exact DiffStrip.copy_empty_refuted_threshold. Qed.
+Print Assumptions C02_copy_empty_refuted_threshold.
+
+(* ---- "in every view, verbosity >= 1" over the extended universe (Diff/XuTextEmpty.v), every printer oracle ---- *)
+From DD Require Diff.XuTextView Diff.XuTextEmpty.
+
+Theorem C02x_text_empty_is_tree_empty :
+  forall xrepr xstr v hatom udiff ops excl c (t1 t2 : XuValue.value),
+    1 <= v -> XuEmpty.tiling ops ->
+    XuTextView.text_view xrepr xstr v (fst (XuModel.run_diff hatom udiff ops (fun _ => false) excl c t1 t2)) = [] ->
+    fst (XuModel.run_diff hatom udiff ops (fun _ => false) excl c t1 t2) = [].
+Proof. exact XuTextEmpty.text_empty_tree_empty. Qed.
+Print Assumptions C02x_text_empty_is_tree_empty.
+
+Theorem C02x_empty_sound_text_unguarded :
+  forall xrepr xstr v hatom udiff ops excl c ok (t1 t2 : XuValue.value),
+    1 <= v ->
+    (forall a b, ok a = true -> ok b = true -> hatom a = hatom b -> XuValue.py_eq a b = true) -> XuEmpty.valid_ops ops ->
+    XuValue.wf t1 = true -> XuValue.wf t2 = true ->
+    XuEmpty.inputs_ok (XuModel.keep_key c) ok XuEmpty.any_atom t1 = true ->
+    XuEmpty.inputs_ok (XuModel.keep_key c) ok XuEmpty.any_atom t2 = true ->
+    XuTextView.text_view xrepr xstr v (fst (XuModel.run_diff hatom udiff ops (fun _ => false) excl c t1 t2)) = [] ->
+    XuValue.py_eqv (XuEmptyNorm.normL t1) (XuEmptyNorm.normL t2) = true.
+Proof. exact XuTextEmpty.text_empty_sound_norm. Qed.
+Print Assumptions C02x_empty_sound_text_unguarded.
+
+
+(* ... and with Diff/XuStrip.v (hidden keys removed, as C02_empty_sound_all_keys) ONLY the set-member guard is left over
+   the extended universe: no key guard, no datetime-kind guard *)
+From DD Require Diff.XuStrip.
+
+Theorem C02x_empty_sound_only_set_member_guard :
+  forall hatom udiff ops excl c ok (t1 t2 : XuValue.value),
+    (forall a b, ok a = true -> ok b = true -> hatom a = hatom b -> XuValue.py_eq a b = true) -> XuEmpty.valid_ops ops ->
+    XuValue.wf t1 = true -> XuValue.wf t2 = true ->
+    XuEmpty.inputs_ok XuEmpty.any_atom ok XuEmpty.any_atom t1 = true ->
+    XuEmpty.inputs_ok XuEmpty.any_atom ok XuEmpty.any_atom t2 = true ->
+    fst (XuModel.run_diff hatom udiff ops (fun _ => false) excl c t1 t2) = [] ->
+    XuValue.py_eqv (XuEmptyNorm.normL (XuStrip.strip c t1)) (XuEmptyNorm.normL (XuStrip.strip c t2)) = true.
+Proof. intros. eapply XuStrip.run_empty_sound_all_keys_norm; eassumption. Qed.
+Print Assumptions C02x_empty_sound_only_set_member_guard.
+
 (* ------------------------------------------------------------------ *)
 (** EXTENSION beyond the property's stated domain: values holding INSTANCES OF CLASSES
     (objects with attributes, Obj/ObjValue.v [ovalue]).  The ordered diff on such values is the
